@@ -7,22 +7,22 @@ WHAT = {
  "C02": "all programs of <= 1 operation x dev <= 1 over the 9 x 2 x 2 x 4 configuration matrix; <= 2 operations x dev <= 1 on a non-seekable 1.7 and a seekable RC4 1.4 configuration; <= 2 operations x dev 0 on 4 + 2 human-readable + encrypted representatives; Catalog/Info profiles (minimal, every admissible field, explicit defaults) x 9 versions x {plain, encrypted}; operations include Put of a stream object while a stream is open, a 300-member object stream, generation 65535, a hand-made reference with the next free number, a multi-KiB value with strings at depth 1-3; a fixed set of refused calls on other Writers runs before every program; every argument incl. the byte slices given to Write is compared after Close; every Catalog and Info field is compared",
  "C03": "the same programs (without hand-made references), judged by ref/pdffile + ref/stdsec + independent codecs",
  "C04": "81 x 3 one-revision histories x 421 renderings (all knob pairs); 2 rev x 2 obj x 9 kind vectors x 22 renderings; 2 rev x 4 obj and 3 rev x 2 obj x all kind vectors x {default, objstm}; the 2- and 3-revision histories again with free entries of generation 65535; trailer entries of newest and of older revisions; 4 bodies x 11 length defects x 21 renderings; every body length 0..2200 x 4 defects x 2 EOLs; every spelling of 40 strings over {a, LF, CR} as a literal string (raw EOLs, escapes, <= 1 line continuation)",
- "C05": "4 seeds x every single mutation of the menu x 4 open modes; crafted hostile structures (9 recursive structures x 36 link patterns x sizes 1..24 and up to 1000); one stream per filter chain of length <= 3 x 5 payloads; 11 k LZW table-state streams; crafted cross-reference wirings (/Prev, /XRefStm over <= 8 sections, every integer token of the sections) and /Length wirings (2 object streams, <= 2 stream nodes inside or outside them), each also behind 1..1000 bytes of prefix; all pairs of link rewirings on the first seed",
- "C06": "predictor grid, LZW boundaries, CCITT parameter product with all small bitmaps, 166 chains, chunkings (every cut into <= 3 writes through an overwritten transfer buffer; notes/C06.md)",
- "C07": "the C06 spaces restricted to algorithms with a second implementation, both directions; chunked writes (every cut into <= 3 writes) judged by the independent decoders",
- "C08": "306 seeds (also through pdf.ReadAll with 3 limits), 433 k byte mutations, 9.5 k header claims, 630 bombs, 47 k parameter-dictionary corruptions, 95 k chains of length <= 2, all 11^3 chains of length 3 with valid / multi-layer-bomb / bad-parameter bodies, 39 k LZW table-state bodies, 226 k JBIG2 segment programs, 49 k JBIG2 parameter programs, 76 k progressive-JPEG scan programs",
+ "C05": "4 seeds x every single mutation of the menu (incl. string lengths) x 4 open modes; crafted hostile structures (10 recursive structures x 36 link patterns x sizes 1..24 and up to 1000); crafted forms (/AcroForm wired to 54 values x widgets on 1-3 pages); one stream per filter chain of length <= 3 x 5 payloads; 11 k LZW table-state streams; crafted cross-reference wirings and /Length wirings, each also behind 1..1000 bytes of prefix; all pairs of link rewirings on the first seed",
+ "C06": "predictor grid, LZW boundaries, CCITT parameter product with all small bitmaps, 166 chains, chunkings (every cut into <= 3 writes through an overwritten transfer buffer), long runs (2^10..2^20 and 5 000 000 equal bytes), wide CCITT rows on the make-up code boundaries (notes/C06.md)",
+ "C07": "the C06 spaces restricted to algorithms with a second implementation, both directions; chunked writes; long runs and wide CCITT rows; independent encoders' output read through 1-7 byte buffers",
+ "C08": "306 seeds (also through pdf.ReadAll with 3 limits), 433 k byte mutations, 9.5 k header claims, 630 bombs, 47 k parameter-dictionary corruptions, 95 k chains of length <= 2, all 11^3 chains of length 3, 39 k LZW table-state bodies, 226 k JBIG2 segment programs, 49 k JBIG2 parameter programs, 127 k JBIG2 symbol-dictionary programs and cuts, 76 k progressive-JPEG scan programs, 49 k JPEG frame products",
  "C09": "14 x 14 password pairs x 9 versions x 3 metadata modes x 15 try-passwords; 128 permission sets x 9 versions x 3 pairs; 2 bounds x 14 boundary passwords x 3 roles x 9 versions x 71 tries; 361 stream/string lengths x 4 write x 5 read chunkings x 9 versions; aliasing family; strings at depth 0-2 of arrays and dictionaries of 29 widths (1..1025) x 4 write routes x 8 versions",
  "C10": "Writer files judged by ref/stdsec (password pairs x versions x metadata x IDs x permissions x (number, generation) pairs x 271 write orders; 48 passwords by length structure per truncation bound), reference files opened by the Reader (11 handler configurations)",
  "C11": "20 spaces of source graphs (incl. stale-generation references, both spellings of one-element filter chains, references inside /DecodeParms, 6 192 filter chains of length 2-3 with every per-position parameter entry, hand-made direct values with nil entries) x BFS over Copy/CopyReference/Redirect programs of <= 3 calls x encryption pairs",
- "C12": "4.0 M range sets (3.25 M valid), every string over the induced partition",
+ "C12": "4.0 M range sets (3.25 M valid) incl. every subset of 7 ladders of 6-15 ranges, every string over the induced partition",
  "C13": "7^6 CID maps and 10^5 ToUnicode maps per window x 10 windows x code spaces x chain configurations; 17^5 ToUnicode maps (multi-rune relations) on 3 windows; hand-built files; 63 chain code space assignments x complete child/parent maps (1.8 M chains); 1.6 M file round trips",
  "C14": "59 fonts x strings of length <= 3 over 9 characters x 4 versions, interleavings, fill-ups, retexts; 17 k dressed glyph sequences (per glyph Rise x Advance adjustment, Skip) on 20 font kinds",
- "C15": "operators x operand tuples, adjacency pairs, triples, 19 850 inline-image data strings, splits, 5 866 reals by digit structure; Builder BFS to depth 6/5, every accepted history again with Harvest before one and two of its calls",
- "C16": "6 BFS profiles over page-tree writer histories",
- "C17": "all 2^14 key subsets x 2 entry points, number subsets, 1 281 size cases incl. 262 145; 2 828 writer-context cases (trees inside open streams, two trees, nested writes); 510 k reader programs (Lookup / All / next / abandon, <= 3 operations) on one FromFile",
- "C18": "28 scenarios; 2 threads unbounded, 3 threads preemption bound 2 (thorough: unbounded); race pass 300 x each scenario",
- "C19": "22 documents (incl. object-stream-heavy, AES, ciphertexts ending in CR/LF, hand-built indirect /DecodeParms and wrong /Length) x 4 scenarios (each with a caching Decode and a retry pass on the same Reader and Extractor) x every ReadAt index x 3 fault modes x 2 error kinds; write programs x every sink call x {fail from k, fail only k}",
- "C20": "every prefix of every document and 33 xref damages each; aligned documents: 24 small objects (10 streams with indirect /Length) behind a pad of every length 0..1100, every cut after the pad",
+ "C15": "operators x operand tuples, adjacency pairs, triples, 19 850 inline-image data strings, splits, 5 866 reals by digit structure; Builder BFS to depth 6/5, every accepted history again with Harvest before one and two of its calls, on a reset Builder, and completed with the library's closing operators",
+ "C16": "8 BFS profiles over page-tree writer histories, incl. 31 k histories over document.MultiPage",
+ "C17": "all 2^14 key subsets x 2 entry points, number subsets, 1 281 size cases incl. 262 145; 2 828 writer-context cases; 510 k reader programs on one FromFile; 163 k programs on one InMemory value",
+ "C18": "29 scenarios; 2 threads unbounded, 3 threads preemption bound 2 (thorough: unbounded); race pass 300 x each scenario",
+ "C19": "24 documents (incl. object-stream-heavy, AES, ciphertexts ending in CR/LF, hand-built indirect /DecodeParms, wrong /Length, hybrid-reference, two classic revisions) x 4 scenarios (each with a caching Decode and a retry pass) x every ReadAt index x 3 fault modes x 2 error kinds; write programs x every sink call x {fail from k, fail only k}",
+ "C20": "every prefix of every document and 33 xref damages each; aligned documents: 40 small objects (16 streams with indirect /Length, one object of every type) behind a pad object of every length 0..1100 that ends in escaped names, cuts at the buffer boundaries and object ends",
 }
 def fmt(n):
     if n is None: return "-"
